@@ -203,12 +203,31 @@ def _run_chunk(cid, seed, tier, indices):
                 out.append((idx, None, result(HARNESS_ERROR, invariant='generate', detail=''.join(
                     traceback.format_exception(type(err), err, err.__traceback__))[-4000:])))
                 continue
-            res = safe_execute(check, scenario)
+            if not fleet:
+                # a single run that does not come back (a pathological case for the system under test or for the
+                # brute-force oracle) is inconclusive; it must not take the whole worker pool down
+                signal.signal(signal.SIGALRM, _alarm)
+                signal.setitimer(signal.ITIMER_REAL, check.run_timeout)
+            try:
+                res = safe_execute(check, scenario)
+            except RunTimeout:
+                res = result(HARNESS_TIMEOUT, invariant='run-timeout', detail='no answer within %s s' % check.run_timeout)
+            finally:
+                if not fleet:
+                    signal.setitimer(signal.ITIMER_REAL, 0)
             out.append((idx, scenario, res))
     finally:
         if not fleet:
             faulthandler.cancel_dump_traceback_later()
     return out
+
+
+class RunTimeout(BaseException):
+    pass
+
+
+def _alarm(signum, frame):
+    raise RunTimeout()
 
 
 def _exec_scenarios(cid, tier, scenarios):
